@@ -7,6 +7,7 @@ import itertools
 import weakref
 
 from . import sigs, oracle, w_mod
+from . import core
 from .sigs import PO, PK, VA, KO, VK
 from .sigutil import sources_view
 
@@ -55,6 +56,7 @@ def step_sets(fparams, rnd):
     return out
 
 
+@core.guarded(lambda fparams, steps: dict(workload='order', fparams=sigs.to_json(fparams), steps=[s[0] for s in steps]))
 def check_orders(ctx, fparams, steps):
     """Every permutation of `steps`: admissible orders must agree on both
     signatures and on behaviour; and agree with the native reference."""
@@ -244,6 +246,7 @@ def find_self(ret, inst):
     return False
 
 
+@core.guarded(lambda kind, history: dict(workload='history', kind=kind, history=list(history)))
 def run_history(ctx, kind, history):
     import sigtools
     ns = sigs.compile_module(KINDS[kind], tag='vhist')
